@@ -226,7 +226,7 @@ func (g *gen) numericStatements() {
 
 	// Thorough: every ordered pair of statement forms on the same variable.
 	for _, t := range g.nums() {
-		for _, v := range []string{"5", maxOf[t]} {
+		for _, v := range []string{"5"} {
 			for _, f1 := range stmtForms {
 				for _, f2 := range stmtForms {
 					s1 := strings.ReplaceAll(f1.text, "K", "1")
